@@ -1,5 +1,6 @@
 SPECIFICATION Spec
 CONSTANTS
   Tier = "quick"
+VIEW View
 INVARIANTS DesignInvariants Emit
 CHECK_DEADLOCK FALSE
